@@ -65,7 +65,7 @@ package ipnisync
 // the CID's multihash, and the committer runs at most once, only after a
 // successful comparison.
 //@ func (*Syncer).fetchBlock$1
-//@   property C02
+//@   property C02 C01
 //@   requires s != nil && s.sync != nil && data != nil && ctx != nil
 //@   ghost eq := false
 //@   at call TeeReader: assert arg0 == data && arg1 == writer
